@@ -83,6 +83,8 @@ fn scenario(rec: &mut Rec, ctx: &Ctx, idx: u64, rng: &mut ChaCha20Rng) {
       2 => t + 1,
       _ => rng.gen_range(1..=2 * t),
     } as usize;
+    // a few scenarios contain "hot" measurements reported by 64..200 clients
+    let size = if idx % 8 == 3 && g < 3 && !ctx.flag("tiny") { rng.gen_range(64..=200) } else { size };
     sizes.push(size);
     let mut auxes: Vec<Vec<u8>> = Vec::new();
     for _ in 0..size {
